@@ -63,14 +63,14 @@ class Ref:
 class FnRef:
     """pointer to a function of the module"""
 
-    def __init__(self, q):
-        self.q = q
+    def __init__(self, q, nparams=None):
+        self.q, self.nparams = q, nparams        # nparams: set for pointers to member functions (picks the overload)
 
     def __eq__(self, o):
-        return isinstance(o, FnRef) and o.q == self.q
+        return isinstance(o, FnRef) and o.q == self.q and o.nparams == self.nparams
 
     def __hash__(self):
-        return hash(('fnref', self.q))
+        return hash(('fnref', self.q, self.nparams))
 
     def __repr__(self):
         return '<&%s>' % self.q
@@ -546,6 +546,8 @@ class AEval:
             raise AnalysisError('abstract evaluation: unbound name %s at %s' % (a[0], e.loc))
         if k == 'this':
             return env['self']
+        if k == 'memfn':
+            return FnRef(a[0], a[1])             # pointer to a member function (name, number of parameters)
         if k == 'field':
             o = self.ev(a[0], env, depth)
             if isinstance(o, Ref):
@@ -738,6 +740,12 @@ class AEval:
             return None
         if self.typed and recv_e is None and isinstance(env.get(name), FnRef):
             name = env[name].q               # a call through a pointer to function held in a local
+            short = name.split('.')[-1]
+        if self.typed and name == '.*' and recv_e is not None and args_e:
+            p = self.ev(args_e[0], env, depth)       # (object.*pointer)(args)
+            if not isinstance(p, FnRef):
+                raise AnalysisError('abstract evaluation: call through %r, which is not a pointer to member, at %s' % (p, e.loc))
+            name, args_e = p.q, list(args_e[1:])
             short = name.split('.')[-1]
         if not self.typed and recv_e is None:
             if name in ('TypedDict', 'NamedTuple', 'TypeVar', 'NewType'):
